@@ -102,6 +102,20 @@ def run_schedule(chains, with_search_history=False):
     except Exception as ex:
         o["finished"], o["exc"] = True, "%s: %s" % (type(ex).__name__, str(ex)[:100])
     ev.append(o)
+    # the same through a one-shot iterator and through a generator (the signature says Iterable)
+    for how in ("iterator", "generator"):
+        items = make_items(chains)
+        o = {"alg": "sort", "finished": False, "exc": "", "order": [], "how": how}
+        try:
+            with deadline(2.0):
+                src = iter(items) if how == "iterator" else (it for it in items)
+                o["order"] = [it.idx for it in gb.sort(src)]
+                o["finished"] = True
+        except Expired:
+            pass
+        except Exception as ex:
+            o["finished"], o["exc"] = True, "%s: %s" % (type(ex).__name__, str(ex)[:100])
+        ev.append(o)
     items = make_items(chains)
     o = {"alg": "min", "finished": False, "exc": "", "best": 0}
     try:
